@@ -84,6 +84,13 @@ def make_callable(kind):
         def f(x=-1, *rest, k=0, **more):
             return x
         return f, f
+    if kind == "staticmethod_obj":
+        # the contract is written above @staticmethod: the decorator is handed the staticmethod object
+        def f(x):
+            return x
+        sm = staticmethod(f)
+        sm.note = ["kept"]          # whatever the user stored on the object stays there
+        return sm, sm
     if kind == "checker":
         # the object handed to the decorator is itself a checker made by an enabled contract
         @icontract.require(c_outer, enabled=True)
